@@ -335,20 +335,20 @@ class Exec(Interp):
         from .models import InfLen
         infinite = seq is not None and seq.n is InfLen
 
-        def eval_invs(frame):
+        def eval_invs(frame, goal=False):
             out = []
             if seq is not None and not infinite:
                 out.append(('range', zand(to_int(self.ghost[kname]) >= 0,
                                           to_int(self.ghost[kname]) <= to_int(seq.n))))
             for i, x in enumerate(invs):
-                out.append((i, self.pure_eval(x, frame)))
+                out.append((i, self.goal(x, frame) if goal else self.pure_eval(x, frame)))
             return out
         set_k(0)
         for g, e0 in spec.get('ghost_entry', {}).items():
             self.ghost[gsub(g)] = self.pure_eval(gsub(e0), fr)      # constants captured at loop entry
         for g, e0 in gi.items():
             self.ghost[g] = self.pure_eval(e0, fr)
-        for i, g in eval_invs(fr):
+        for i, g in eval_invs(fr, True):
             self.ctx.oblige(self.oname('inv-init', line, i), self.as_goal(g), 'inv-init', line)
         # havoc
         self.havoc_loop(s, fr, spec)
@@ -387,11 +387,11 @@ class Exec(Interp):
             set_k(kv + 1)
             for g, e1 in gu.items():
                 self.ghost[g] = self.pure_eval(e1, fr)
-            for i, g in eval_invs(fr):
+            for i, g in eval_invs(fr, True):
                 self.ctx.oblige(self.oname('inv-pres', line, i), self.as_goal(g), 'inv-pres', line)
             for i, x in enumerate(spec.get('step', [])):
                 # step refinement: the iteration just executed implements the specification's step
-                self.ctx.oblige(self.oname('step', line, i), self.as_goal(self.pure_eval(gsub(x), fr)), 'inv-pres', line)
+                self.ctx.oblige(self.oname('step', line, i), self.goal(gsub(x), fr), 'inv-pres', line)
             if var0 is not None:
                 var1 = to_int(self.pure_eval(gsub(spec['variant']), fr))
                 self.ctx.oblige(self.oname('variant', line), z3.And(var0 >= 0, var1 < var0), 'variant', line)
@@ -400,7 +400,7 @@ class Exec(Interp):
             raise PathEnd()
         # loop exit: assertions the contract attaches to the normal exit of this loop
         for i, x in enumerate(spec.get('exit', [])):
-            self.ctx.oblige(self.oname('loop-exit', line, i), self.as_goal(self.pure_eval(gsub(x), fr)), 'post', line)
+            self.ctx.oblige(self.oname('loop-exit', line, i), self.goal(gsub(x), fr), 'post', line)
         self.block(s.orelse, fr)
 
     def havoc_loop(self, s, fr, spec):
@@ -484,6 +484,18 @@ class Exec(Interp):
             raise Unsupported('contract expression %r may raise %s on this path' % (text[:80], ex.cls))
         finally:
             self.pure = was
+
+    def goal(self, text, fr, extra=None):
+        """proof goal of a contract clause; a clause that cannot be evaluated on this path because the
+        value it inspects has the wrong kind (len() of a bool, attribute of None) is a failed
+        obligation, not a checker error: the state does not have the form the contract describes"""
+        try:
+            return self.as_goal(self.pure_eval(text, fr, extra))
+        except Unsupported as ex:
+            if 'may raise' not in str(ex):
+                raise
+            self.not_evaluable.append(str(ex))
+            return z3.BoolVal(False)
 
     def as_goal(self, v):
         t = self.truth(v)
